@@ -142,8 +142,10 @@ USE(lemma_wd_cong_REQ(ORD(cs.y, cs.m, cs.d), ORD(%(YO)s, cs.m, cs.d) + (Z)146097
 USE(lemma_I_anchor_REQ((int)(cs.y %% 400), cs.m, cs.d), lemma_I_anchor_ENS((int)(cs.y %% 400), cs.m, cs.d), "I_anchor");
 USE(lemma_cong_REQ(%(YO)s, (Z)((int)(cs.y %% 400)), cs.m, cs.d), lemma_cong_ENS(%(YO)s, (Z)((int)(cs.y %% 400)), cs.m, cs.d), "cong");
 USE(lemma_wd_cong_REQ(ORD(%(YO)s, cs.m, cs.d), (Z)ORD_I((int)(cs.y %% 400), cs.m, cs.d)), lemma_wd_cong_ENS(ORD(%(YO)s, cs.m, cs.d), (Z)ORD_I((int)(cs.y %% 400), cs.m, cs.d)), "wd_cong small");
+USE(lemma_wd_cong_REQ(ODAY(cs), ORD(cs.y, cs.m, cs.d)), lemma_wd_cong_ENS(ODAY(cs), ORD(cs.y, cs.m, cs.d)), "wd_cong opaque");
 STEP(WD((Z)ORD_I((int)(cs.y %% 400), cs.m, cs.d)) == (Z)WD_I(ORD_I((int)(cs.y %% 400), cs.m, cs.d)), "weekday of a small ordinal in 32 bits");
 STEP(0 <= wd %% 7 + 6 && wd %% 7 + 6 < 13 && (int)k_weekday_by_mon_off[wd %% 7 + 6] == WD_I(ORD_I((int)(cs.y %% 400), cs.m, cs.d)), "the table formula is the weekday within the cycle");
+STEP((Z)(int)k_weekday_by_mon_off[wd %% 7 + 6] == WD(ORD(cs.y, cs.m, cs.d)), "chain: table value is the weekday of the full ordinal");
 """ % dict(YO=YO)
 HOOKS['get_weekday'] = [(r'return k_weekday_by_mon_off', GW)]
 GHOST['get_weekday'] = {0: "REVEAL_VALIDD(cs.y, cs.m, cs.d);"}
@@ -151,29 +153,29 @@ GHOST['get_yearday'] = {0: "REVEAL_VALIDD(cs.y, cs.m, cs.d);\nREVEAL_DAYORD(cs.y
 
 # --- next_weekday / prev_weekday ---------------------------------------------------------------------
 # forw[i] is weekday number i%7, back[i] is weekday number (6 - i%7)
+# next_weekday / prev_weekday: the outer loop has a contract; the inner loop (at most 7 iterations: the table holds every weekday in
+# any 7 consecutive entries) is unwound with an unwinding assertion - goto-instrument --dfcc rejects contracts on this nest
+# ("loop body instruction with incoming edge from outside the loop").  dfcc havocs function-local statics at a loop contract, so the
+# (const) table's contents are restated as an invariant.
 LOOPS['next_weekday'] = {
     1: """__CPROVER_assigns(i)
 __CPROVER_loop_invariant(0 <= i && i <= (int)base && (int)base <= 6)
+__CPROVER_loop_invariant((int)k_weekdays_forw[0] == 0 && (int)k_weekdays_forw[1] == 1 && (int)k_weekdays_forw[2] == 2 && (int)k_weekdays_forw[3] == 3 && (int)k_weekdays_forw[4] == 4 && (int)k_weekdays_forw[5] == 5 && (int)k_weekdays_forw[6] == 6 && (int)k_weekdays_forw[7] == 0 && (int)k_weekdays_forw[8] == 1 && (int)k_weekdays_forw[9] == 2 && (int)k_weekdays_forw[10] == 3 && (int)k_weekdays_forw[11] == 4 && (int)k_weekdays_forw[12] == 5 && (int)k_weekdays_forw[13] == 6)
 __CPROVER_decreases(7 - i)""",
-    2: """__CPROVER_assigns(j)
-__CPROVER_loop_invariant(i == (int)base && i + 1 <= j && j <= i + 1 + FM((int)wd - (i + 1), 7))
-__CPROVER_decreases(14 - j)""",
 }
 LOOPS['prev_weekday'] = {
     1: """__CPROVER_assigns(i)
 __CPROVER_loop_invariant(0 <= i && i <= 6 - (int)base && 0 <= (int)base && (int)base <= 6)
+__CPROVER_loop_invariant((int)k_weekdays_back[0] == 6 && (int)k_weekdays_back[1] == 5 && (int)k_weekdays_back[2] == 4 && (int)k_weekdays_back[3] == 3 && (int)k_weekdays_back[4] == 2 && (int)k_weekdays_back[5] == 1 && (int)k_weekdays_back[6] == 0 && (int)k_weekdays_back[7] == 6 && (int)k_weekdays_back[8] == 5 && (int)k_weekdays_back[9] == 4 && (int)k_weekdays_back[10] == 3 && (int)k_weekdays_back[11] == 2 && (int)k_weekdays_back[12] == 1 && (int)k_weekdays_back[13] == 0)
 __CPROVER_decreases(7 - i)""",
-    2: """__CPROVER_assigns(j)
-__CPROVER_loop_invariant(i == 6 - (int)base && i + 1 <= j && j <= i + 1 + FM((6 - (int)wd) - (i + 1), 7))
-__CPROVER_decreases(14 - j)""",
 }
 GHOST['next_weekday'] = {0: "BOUND_DAYORD(cd.y, cd.m, cd.d);"}
 GHOST['prev_weekday'] = {0: "BOUND_DAYORD(cd.y, cd.m, cd.d);"}
 HOOKS['next_weekday'] = [
-    (r'return cd \+', 'USE(lemma_wd_add_REQ(ODAY(cd), j - i), lemma_wd_add_ENS(ODAY(cd), j - i), "wd_add(cd, j-i)");'),
+    (r'return cd \+', 'USE(lemma_validrepr_REQ(cd.y, cd.m, cd.d), lemma_validrepr_ENS(cd.y, cd.m, cd.d), "validrepr(cd)");\nUSE(lemma_wd_add_REQ(ODAY(cd), j - i), lemma_wd_add_ENS(ODAY(cd), j - i), "wd_add(cd, j-i)");'),
 ]
 HOOKS['prev_weekday'] = [
-    (r'return cd -', 'USE(lemma_wd_add_REQ(ODAY(cd), j - i), lemma_wd_add_ENS(ODAY(cd), j - i), "wd_add(cd, j-i)");'),
+    (r'return cd -', 'USE(lemma_validrepr_REQ(cd.y, cd.m, cd.d), lemma_validrepr_ENS(cd.y, cd.m, cd.d), "validrepr(cd)");\nUSE(lemma_wd_add_REQ(ODAY(cd), j - i), lemma_wd_add_ENS(ODAY(cd), j - i), "wd_add(cd, j-i)");'),
 ]
 
 HOOKS['is_leap_year'] = [(r'return y % 4 == 0', "REVEAL_IDX400(y);\nREVEAL_LEAPI(IDX400(y));\nUSE(lemma_I_anchor_REQ(IDX400(y), 1, 1), lemma_I_anchor_ENS(IDX400(y), 1, 1), \"I_anchor(idx)\");")]
